@@ -15,6 +15,9 @@ from .srcmodel import (
     dump,
     enclosing_function,
     enclosing_stmt,
+    enclosing_class,
+    module_of,
+    qualname_of,
     same,
     unparse,
     walk_no_nested,
@@ -215,6 +218,20 @@ def derives_from(func, at, expr, pname: str, depth: int = 6) -> bool:
                 continue
             if n.id == pname and all(v == "param" for _, v, _ in defs):
                 return True
-            if all(isinstance(v, ast.AST) and derives_from(func, st, v, pname, depth - 1) for _, v, st in defs):
+            if all(
+                (v == "param" and nm_ == pname) or (isinstance(v, ast.AST) and derives_from(func, st, v, pname, depth - 1))
+                for nm_, v, st in defs
+            ):
                 return True
     return False
+
+
+def all_defs(expr, at, func=None):
+    """Value expressions of every reaching definition of a plain name (or [expr] itself)."""
+    func = func or enclosing_function(at)
+    if not isinstance(expr, ast.Name):
+        return [expr]
+    out = []
+    for nm, val, st in reaching_of(func).reaching(at, expr.id):
+        out.append(val if isinstance(val, ast.AST) else None)
+    return out or [expr]
